@@ -225,7 +225,11 @@ impl MonthCode {
                 calendar,
                 ..
             } => {
-                are_month_and_month_code_resolvable(*month, month_code)?;
+                // NOTE: Outside of the ISO calendar the position of a month code depends on the
+                // year: the calendar checks the pair (see `Calendar::icu_codes`).
+                if calendar.is_iso() {
+                    are_month_and_month_code_resolvable(*month, month_code)?;
+                }
                 month_code.validate(calendar)?;
                 Ok(*month_code)
             }
